@@ -1,0 +1,22 @@
+//go:build verif
+
+package handlers
+
+import "github.com/cossacklabs/acra/sqlparser"
+
+// Add-only accessors for the verification harness (built only with -tags verif).
+
+// VerifRules returns the rule sets of the allow handler.
+func (handler *AllowHandler) VerifRules() (map[string]bool, map[string]bool, []sqlparser.Statement) {
+	return handler.queries, handler.tables, handler.patterns
+}
+
+// VerifRules returns the rule sets of the deny handler.
+func (handler *DenyHandler) VerifRules() (map[string]bool, map[string]bool, []sqlparser.Statement) {
+	return handler.queries, handler.tables, handler.patterns
+}
+
+// VerifQueries returns the set of ignored queries.
+func (handler *QueryIgnoreHandler) VerifQueries() map[string]bool {
+	return handler.ignoredQueries
+}
